@@ -3,6 +3,7 @@ import random as _random
 from models import ig as M
 from gens import fa as GF
 from sim.core import FAILED
+from sim.steps import LineBudget, BudgetExceeded
 
 ID = "C17"
 CASES = {"quick": 260, "thorough": 4500}
@@ -17,6 +18,7 @@ ASSUMPTIONS = ["non-terminal names avoid the product construction's reserved 'T'
 NT = ["S", "A", "B", "C"]
 IDX = ["f", "g"]
 TERM = ["a", "b"]
+INTER_BUDGET = 1500000
 
 
 def gen(rng, tier):
@@ -44,7 +46,7 @@ def gen(rng, tier):
             r = ["C", f, c, b]
             if r not in rules:
                 rules.append(r)
-    fa = GF.gen_fa(rng, plain_symbols=True, adversarial=False, allow_int=False, max_states=3, max_trans=5,
+    fa = GF.gen_fa(rng, plain_symbols=True, adversarial=False, allow_int=False, max_states=2, max_trans=4,
                    max_symbols=2, name_pool=(GF.PLAIN_STATES, "str"))
     fa["hash"] = None
     fa["valmode"] = fa["symmode"] = "str"
@@ -52,7 +54,7 @@ def gen(rng, tier):
     fa["trans"] = [t for t in fa["trans"] if t[1] is None or t[1] in ("a", "b")]
     fa["extra_symbols"] = []
     return {"rules": rules, "perm_seed": rng.getrandbits(30), "nperm": 12 if tier == "quick" else 60,
-            "fa": GF.fix_kind(fa), "with_intersection": rng.chance(0.5)}
+            "fa": GF.fix_kind(fa), "with_intersection": rng.chance(0.5) and len(rules) <= 6}
 
 
 def shrink(case):
@@ -145,7 +147,16 @@ def run(case, out):
             res = out.call("intersection", ig.intersection, GF.build(case["fa"]))
             if res is FAILED:
                 break
-            v = out.call("intersection.is_empty", res.is_empty)
+            # emptiness of the product is exponential in general: a slow answer is inconclusive, not a verdict
+            b = LineBudget(INTER_BUDGET)
+            try:
+                with b:
+                    v = out.call("intersection.is_empty", res.is_empty)
+                out.lines += b.used
+            except BudgetExceeded:
+                out.lines += b.used
+                out.probe("intersection_emptiness_budget_exhausted_inconclusive")
+                break
             if v is not FAILED and bool(v) != wanti:
                 out.fail("intersection:verdict", optim=optim, want=wanti, got=v)
                 break
